@@ -41,3 +41,5 @@ func DeepEq(a, b any) bool                          { panic("symbolic only") }
 func Snapshot(x any) int                            { panic("symbolic only") }
 func SameAsSnapshot(h int, x any) bool              { panic("symbolic only") }
 func Havoc(x any)                                   { panic("symbolic only") }
+func Par2(label string, f, g func())               { panic("symbolic only") }
+func Call(f func())                                 { panic("symbolic only") }
